@@ -267,6 +267,7 @@ func execRun(t *testing.T, sc *Scenario, tier string, seed uint64, index int, ov
 		res.Nontrivial = rc.Nontrivial || res.Preemptions > 0 || nfaults > 0
 		res.CaseHash = res.IlvHash ^ hashStr(rc.CaseKey) ^ hashStr(strings.Join(rc.Desc, "|"))
 	}
+	simrt.ResetGlobals() // instrumenter rule 8: no package-level free list, cache or scratch buffer survives from an earlier run
 	runF, noSched := sc.Run, sc.NoSched
 	if sc.Alt != nil && sc.AltEvery > 0 && index%sc.AltEvery == sc.AltEvery-1 {
 		runF, noSched = sc.Alt, false
